@@ -1293,6 +1293,25 @@ impl Exec {
                     Ok(ok) => vec![json!({"ev": "push", "b": b, "out": if ok { "ok" } else { "err" }, "post": self.project()})],
                 }
             }
+            "bulk_push" => {
+                // direct mode: insert many blocks, one event (for long chains)
+                let bs: Vec<usize> = cmd["bs"].as_array().unwrap().iter().map(|x| x.as_u64().unwrap() as usize).collect();
+                let mut results = vec![];
+                for b in &bs {
+                    let block = ic_btc_types::Block::new(self.uni.blocks[b].clone());
+                    let r = catch_unwind(AssertUnwindSafe(|| {
+                        with_state_mut(|s| ic_btc_canister::unstable_blocks::push(&mut s.unstable_blocks, &s.utxos, block).is_ok())
+                    }));
+                    match r {
+                        Err(_) => {
+                            self.dead = true;
+                            return vec![json!({"ev": "bulk_push", "bs": bs, "out": "trap", "msg": last_panic()})];
+                        }
+                        Ok(ok) => results.push(ok),
+                    }
+                }
+                vec![json!({"ev": "bulk_push", "bs": bs, "oks": results, "out": "ok", "post": self.project()})]
+            }
             "ingest" => {
                 let budget = cmd["budget"].as_u64().unwrap_or(0);
                 self.set_budget(budget);
